@@ -108,6 +108,8 @@ func (c *faultClient) ProcessRange(ctx context.Context, in *pbssinternal.Process
 	case "server_send_fails":
 		// the connection drops while the job runs: tier2 notices it when it sends its first progress message
 		ctx = metadata.AppendToOutgoingContext(ctx, "verif-fail-send", "1")
+	case "server_context_canceled":
+		ctx = metadata.AppendToOutgoingContext(ctx, "verif-cancel-server", "1")
 	}
 	cctx, cancel := context.WithCancel(ctx)
 	st, err := c.inner.ProcessRange(cctx, in, opts...)
@@ -124,6 +126,11 @@ func startTier2(plan *faultPlan) (client.InternalClientFactory, func()) {
 	srv := grpc.NewServer(grpc.StreamInterceptor(func(srv any, ss grpc.ServerStream, info *grpc.StreamServerInfo, handler grpc.StreamHandler) error {
 		if md, ok := metadata.FromIncomingContext(ss.Context()); ok && len(md.Get("verif-fail-send")) > 0 {
 			return handler(srv, &failingServerStream{ServerStream: ss})
+		}
+		if md, ok := metadata.FromIncomingContext(ss.Context()); ok && len(md.Get("verif-cancel-server")) > 0 {
+			cctx, cancel := context.WithCancel(ss.Context())
+			defer cancel()
+			return handler(srv, &cancelingServerStream{ServerStream: ss, ctx: cctx, cancel: cancel})
 		}
 		return handler(srv, ss)
 	}))
@@ -152,7 +159,22 @@ func (f *failingServerStream) SendMsg(m any) error {
 	return status.Error(codes.Unavailable, "transport is closing (injected on the server side)")
 }
 
-var transientKinds = []string{"unavailable_before_call", "dropped_midway", "overloaded", "dropped_after_files_written", "server_send_fails", "server_send_fails", "server_send_fails"}
+// cancelingServerStream: the handler's context is cancelled when the job sends its first message (the tier2 process is
+// being shut down, a proxy resets the stream): the real handler aborts and the real toGRPCError answers Canceled on the wire
+// while the CLIENT's own context is alive - a transient fault the worker must retry
+type cancelingServerStream struct {
+	grpc.ServerStream
+	ctx    context.Context
+	cancel context.CancelFunc
+}
+
+func (c *cancelingServerStream) Context() context.Context { return c.ctx }
+func (c *cancelingServerStream) SendMsg(m any) error {
+	c.cancel()
+	return c.ServerStream.SendMsg(m)
+}
+
+var transientKinds = []string{"server_context_canceled", "server_context_canceled", "unavailable_before_call", "dropped_midway", "overloaded", "dropped_after_files_written", "server_send_fails", "server_send_fails", "server_send_fails"}
 
 func runFaults(a *args, r *rand.Rand, root string, i int) {
 	// (a) transient faults: up to 3, placed on random jobs/attempts of a cold production run
